@@ -1497,15 +1497,17 @@ impl Formatter {
   pub fn check_list(&mut self, node: &CheckList) -> String {
     let mut lis = "".to_string();
     for (i, ((checked, item), sublist)) in node.iter().enumerate() {
-      let it = self.paragraph(item);
+      let it = if self.html { self.paragraph(item) } else { self.inline_paragraph(item) };
       if self.html {
         lis = format!("{}<li class=\"mech-check-list-item\"><input type=\"checkbox\" {}>{}</li>", lis, if *checked { "checked" } else { "" }, it);
       } else {
-        lis = format!("{}* [{}] {}\n", lis, if *checked { "x" } else { " " }, it);
+        lis = format!("{}{}-[{}]{}\n", lis, " ".repeat(self.indent), if *checked { "x" } else { " " }, it);
       }
       match sublist {
         Some(sublist) => {
+          self.indent += 2;
           let sublist_str = self.list(sublist);
+          self.indent -= 2;
           lis = format!("{}{}", lis, sublist_str);
         },
         None => {},
@@ -1521,15 +1523,18 @@ impl Formatter {
   pub fn ordered_list(&mut self, node: &OrderedList) -> String {
     let mut lis = "".to_string();
     for (i, ((num,item),sublist)) in node.items.iter().enumerate() {
-      let it = self.paragraph(item);
+      let it = if self.html { self.paragraph(item) } else { self.inline_paragraph(item) };
       if self.html {
         lis = format!("{}<li class=\"mech-ol-list-item\">{}</li>",lis,it);
       } else {
-        lis = format!("{}{}. {}\n",lis,i+1,it);
+        let n = self.number(num);
+        lis = format!("{}{}{}.{}\n",lis," ".repeat(self.indent),n,it);
       }
       match sublist {
         Some(sublist) => {
+          self.indent += 2;
           let sublist_str = self.list(sublist);
+          self.indent -= 2;
           lis = format!("{}{}",lis,sublist_str);
         },
         None => {},
@@ -1545,15 +1550,18 @@ impl Formatter {
   pub fn unordered_list(&mut self, node: &UnorderedList) -> String {
     let mut lis = "".to_string();
     for (i, ((bullet, item),sublist)) in node.iter().enumerate() {
-      let it = self.paragraph(item);
+      let it = if self.html { self.paragraph(item) } else { self.inline_paragraph(item) };
       match (bullet, self.html) {
         (Some(bullet_tok),true) => lis = format!("{}<li data-bullet=\"{}\" class=\"mech-list-item-emoji\">{}</li>",lis,bullet_tok.to_string(),it),
         (None,true) => lis = format!("{}<li class=\"mech-ul-list-item\">{}</li>",lis,it),
-        (_,false) => lis = format!("{}* {}\n",lis,it),
+        (Some(bullet_tok),false) => lis = format!("{}{}-({}) {}\n",lis," ".repeat(self.indent),bullet_tok.to_string(),it),
+        (None,false) => lis = format!("{}{}- {}\n",lis," ".repeat(self.indent),it),
       }
       match sublist {
         Some(sublist) => {
+          self.indent += 2;
           let sublist_str = self.list(sublist);
+          self.indent -= 2;
           lis = format!("{}{}",lis,sublist_str);
         },
         None => {},
